@@ -12,6 +12,7 @@ from pyvc.smt import VRef, Val, fresh, get_ref, is_ref
 from pyvc.values import SV, sv_bool, sv_ref
 
 DC = z3.Function("deepcopy_of", smt.I, smt.I, smt.B)      # DC(new, old)
+REACH = z3.Function("reachable_node", smt.I, smt.I, smt.B)  # REACH(root, r): r is a mutable node of the structure rooted at root
 
 
 def dc_axioms(h, base, top):
@@ -82,6 +83,9 @@ def deepcopy(eng, s, args, kwargs):
     s.assume(z3.ForAll([a, i], z3.Implies(z3.And(base <= a, a < new.alloc, is_ref(v)), z3.And(get_ref(v) >= 0, get_ref(v) < new.alloc)),
                        patterns=[v]))
     res = fresh("deepcopy", Val)
+    # everything reachable from a deep copy is part of the copy (immutable values apart)
+    rr = z3.Int("dcr_r")
+    s.assume(z3.ForAll([rr], z3.Implies(REACH(get_ref(res), rr), z3.And(base <= rr, rr < new.alloc)), patterns=[REACH(get_ref(res), rr)]))
     if x.ty is None:
         s.assume(z3.If(is_ref(x.t), z3.And(is_ref(res), DC(get_ref(res), get_ref(x.t))), res == x.t))
         return [(SV(res, None), s)]
@@ -100,3 +104,13 @@ def copied_from(eng, st, new, old):
     """new was produced by copy.deepcopy(old): an isomorphic structure of new objects (X-COPY)"""
     n, o = eng.as_val(st, new), eng.as_val(st, old)
     return sv_bool(z3.And(is_ref(n.t), is_ref(o.t), DC(get_ref(n.t), get_ref(o.t))))
+
+
+# ---- reachability of the mutable nodes of a structure (used for frames of tree visitors) ------------------------
+@spec_function()
+def reach_fresh(eng, st, root):
+    """every mutable node of the structure rooted at `root` was allocated during this call (a private copy)"""
+    r = z3.Int("rf_r")
+    v = eng.as_val(st, root)
+    return sv_bool(z3.ForAll([r], z3.Implies(REACH(get_ref(v.t), r), z3.And(r >= eng.entry_alloc, r < st.heap.alloc)),
+                             patterns=[REACH(get_ref(v.t), r)]))
